@@ -189,6 +189,8 @@ pub fn check(prop: &str, tier: Tier, args: &[String]) -> i32 {
     let budget = Duration::from_secs(arg("--budget").and_then(|s| s.parse().ok()).unwrap_or(match tier { Tier::Quick => 170, Tier::Thorough => 1500 }));
     let run_timeout = Duration::from_secs(match tier { Tier::Quick => 120, Tier::Thorough => 400 });
     let tier_s = match tier { Tier::Quick => "quick", Tier::Thorough => "thorough" };
+    // development aid: `--only-seed <run seed>` evaluates exactly one run seed (dry run + fault plans)
+    let only_seed: Option<u64> = arg("--only-seed").and_then(|s| s.parse().ok());
     println!("VERIF_SEED={seed} property={prop} tier={tier_s} runs={n_runs} jobs={jobs}");
 
     let next = Arc::new(AtomicU64::new(0));
@@ -230,10 +232,12 @@ pub fn check(prop: &str, tier: Tier, args: &[String]) -> i32 {
         let (next, agg, timeouts, prop) = (next.clone(), agg.clone(), timeouts.clone(), prop.to_string());
         handles.push(std::thread::spawn(move || loop {
             let i = next.fetch_add(1, Ordering::SeqCst);
+            if only_seed.is_some() && i > 0 { break; }
             if i >= n_runs || t0.elapsed() > budget { break; }
             if agg.lock().unwrap().violations.len() >= 8 { break; }
             // C13: eight consecutive runs share one history and differ in configuration / schedule
             let run_seed = if prop == "C13" { (mix(seed.wrapping_mul(0x9E3779B97F4A7C15) ^ mix(i / 8)) & !7) | (i % 8) } else { mix(seed.wrapping_mul(0x9E3779B97F4A7C15) ^ mix(i)) };
+            let run_seed = only_seed.unwrap_or(run_seed);
             let base = crate::props::make(&prop, tier, run_seed);
             // fault-plan properties: a dry run yields the I/O events of the target step, from which
             // the explicit fault plans (crash points, loss patterns, failing operations) are derived
